@@ -29,6 +29,15 @@ pub struct TTok {
 
 #[derive(Default)]
 pub struct Truth {
+    /// Explicit permission sets as the admin history defines them: GRANT merges, REVOKE takes the
+    /// named rights away and leaves the (possibly all-false) set in place, the operator calls
+    /// set / drop it. Grants are over-approximated (a GRANT counts for every listed type even if
+    /// the handler stopped half-way), so demands derived from a `false` bit are never too strong.
+    pub entries: HashMap<(String, String), (bool, bool)>,
+    /// Rights an admin explicitly took away and nobody granted again: (user, type, "read"/"write").
+    pub revoked: HashSet<(String, String, &'static str)>,
+    /// The admin history in words (create / GRANT / REVOKE / REVOKE KEY / restart), for replays.
+    pub history: Vec<String>,
     pub users: HashMap<String, TUser>,
     pub tokens: Vec<TTok>,
     pub conns: HashMap<u64, Option<String>>,
@@ -58,6 +67,48 @@ impl Truth {
                 || !x.rights.is_empty()
         })
     }
+    // ---- "revoking a permission takes effect" — decided from the admin history alone; a restart
+    // in the history changes nothing. An explicit set overrides the role (types.rs: "Permissions
+    // override roles"; REVOKE leaves an explicit denial): a revoked write right must be refused
+    // whatever the role; a revoked read right must be refused when the set grants write neither.
+    pub fn must_deny_write(&self, u: &str, et: &str) -> bool {
+        !self.is_admin(u) && self.revoked.contains(&(u.to_string(), et.to_string(), "write"))
+    }
+    pub fn must_deny_read(&self, u: &str, et: &str) -> bool {
+        !self.is_admin(u)
+            && self.revoked.contains(&(u.to_string(), et.to_string(), "read"))
+            && !self.entries.get(&(u.to_string(), et.to_string())).is_some_and(|e| e.1)
+    }
+    pub fn history_text(&self) -> String {
+        self.history.join("; ")
+    }
+    /// GRANT naming `what` (attempted by someone entitled).
+    pub fn hist_grant(&mut self, id: &str, et: &str, what: &'static str) {
+        let e = self.entries.entry((id.to_string(), et.to_string())).or_insert((false, false));
+        if what == "read" { e.0 = true } else { e.1 = true }
+        self.revoked.remove(&(id.to_string(), et.to_string(), what));
+    }
+    /// REVOKE naming `what` (executed).
+    pub fn hist_revoke(&mut self, id: &str, et: &str, what: &'static str) {
+        let e = self.entries.entry((id.to_string(), et.to_string())).or_insert((false, false));
+        if what == "read" { e.0 = false } else { e.1 = false }
+        self.revoked.insert((id.to_string(), et.to_string(), what));
+    }
+    /// The operator sets the explicit set (`AuthManager::grant_permission`).
+    pub fn hist_set(&mut self, id: &str, et: &str, read: bool, write: bool) {
+        self.entries.insert((id.to_string(), et.to_string()), (read, write));
+        for (bit, what) in [(read, "read"), (write, "write")] {
+            let k = (id.to_string(), et.to_string(), what);
+            if bit { self.revoked.remove(&k); } else { self.revoked.insert(k); }
+        }
+    }
+    /// The operator removes the explicit set (`AuthManager::revoke_permission`): the role decides again.
+    pub fn hist_drop(&mut self, id: &str, et: &str) {
+        self.entries.remove(&(id.to_string(), et.to_string()));
+        self.revoked.remove(&(id.to_string(), et.to_string(), "read"));
+        self.revoked.remove(&(id.to_string(), et.to_string(), "write"));
+    }
+
     pub fn add_user(&mut self, id: &str, key: &str, roles: &[String]) {
         self.users.insert(
             id.to_string(),
